@@ -165,9 +165,75 @@ fn token_with_num(t: &Token, v: u64) -> Token {
 
 const FIELD_NAMES: [&str; 8] = ["index", "generation", "length", "free", "tag", "val", "chk", "bogus"];
 
+/// Positions of `Struct { name: "Identifier" }` segments: (start, index value pos, generation value pos).
+fn identifier_segments(toks: &[Token]) -> (Vec<(usize, usize, usize)>, Option<usize>) {
+    let mut segs = Vec::new();
+    let mut alloc_at = None;
+    let mut i = 0;
+    while i < toks.len() {
+        match &toks[i] {
+            Token::Struct { name: "Allocator", .. } => alloc_at = Some(i),
+            Token::Struct { name: "Identifier", .. } => {
+                if i + 5 < toks.len() && matches!(toks[i + 1], Token::Field("index")) && matches!(toks[i + 3], Token::Field("generation")) {
+                    segs.push((i, i + 2, i + 4));
+                }
+            }
+            _ => {}
+        }
+        i += 1;
+    }
+    (segs, alloc_at)
+}
+
+/// Coordinated alteration: give one stored row the identifier of another stored row and keep the
+/// allocator's bookkeeping plausible by declaring the orphaned index free (or lowering the
+/// declared length when it was the last index).
+fn mutate_tokens_duplicate_id(rng: &mut Rng, toks: &mut Vec<Token>) -> &'static str {
+    let (segs, alloc_at) = identifier_segments(toks);
+    let Some(alloc_at) = alloc_at else { return "noop" };
+    let rows: Vec<&(usize, usize, usize)> = segs.iter().filter(|s| s.0 < alloc_at).collect();
+    if rows.len() < 2 {
+        return "noop";
+    }
+    let a = *rows[rng.below(rows.len())];
+    let b = *rows[rng.below(rows.len())];
+    if a.0 == b.0 {
+        return "noop";
+    }
+    let orphan = toks[b.1].clone();
+    let orphan_gen = toks[b.2].clone();
+    toks[b.1] = toks[a.1].clone();
+    toks[b.2] = toks[a.2].clone();
+    // fix-up
+    let length_pos = (alloc_at..toks.len()).find(|&i| matches!(toks[i], Token::Field("length"))).map(|i| i + 1);
+    let free_seq = (alloc_at..toks.len()).find(|&i| matches!(toks[i], Token::Seq { .. }));
+    match (rng.below(3), length_pos, free_seq) {
+        (0, Some(lp), _) => {
+            if let Some(v) = token_num(&toks[lp]) {
+                toks[lp] = token_with_num(&toks[lp], v.saturating_sub(1));
+            }
+            "dup_id+length-1"
+        }
+        (1, _, Some(fs)) => {
+            if let Token::Seq { len: Some(l) } = toks[fs] {
+                toks[fs] = Token::Seq { len: Some(l + 1) };
+            }
+            let seg = vec![Token::Struct { name: "Identifier", len: 2 }, Token::Field("index"), orphan, Token::Field("generation"), orphan_gen, Token::StructEnd];
+            for (k, t) in seg.into_iter().enumerate() {
+                toks.insert(fs + 1 + k, t);
+            }
+            "dup_id+orphan_freed"
+        }
+        _ => "dup_id",
+    }
+}
+
 fn mutate_tokens(rng: &mut Rng, toks: &mut Vec<Token>) -> &'static str {
     if toks.is_empty() {
         return "noop";
+    }
+    if rng.chance(1, 12) {
+        return mutate_tokens_duplicate_id(rng, toks);
     }
     let bound = (toks.len() as u64).max(16);
     let pool: Vec<u64> = toks.iter().filter_map(token_num).collect();
@@ -276,7 +342,59 @@ fn json_numbers(v: &Value, out: &mut Vec<u64>) {
     }
 }
 
+/// JSON (row-wise) counterpart of `mutate_tokens_duplicate_id`.
+fn mutate_json_duplicate_id(rng: &mut Rng, root: &mut Value) -> &'static str {
+    // world = [archetypes, allocator, resources]; archetype = [id bytes, length, rows]; row = [identifier, comps..]
+    let mut rows: Vec<(usize, usize)> = Vec::new();
+    if let Some(archs) = root.get(0).and_then(|a| a.as_array()) {
+        for (ai, a) in archs.iter().enumerate() {
+            if let Some(rs) = a.get(2).and_then(|r| r.as_array()) {
+                for ri in 0..rs.len() {
+                    rows.push((ai, ri));
+                }
+            }
+        }
+    }
+    if rows.len() < 2 {
+        return "noop";
+    }
+    let a = rows[rng.below(rows.len())];
+    let b = rows[rng.below(rows.len())];
+    if a == b {
+        return "noop";
+    }
+    let ida = root[0][a.0][2][a.1][0].clone();
+    let orphan = root[0][b.0][2][b.1][0].clone();
+    if !ida.is_object() || !orphan.is_object() {
+        return "noop";
+    }
+    root[0][b.0][2][b.1][0] = ida;
+    // the allocator may already have been re-encoded by an earlier mutation of this input
+    let alloc = match root.get_mut(1).and_then(|a| a.as_object_mut()) {
+        Some(a) => a,
+        None => return "dup_id",
+    };
+    match rng.below(3) {
+        0 => {
+            if let Some(l) = alloc.get("length").and_then(|l| l.as_u64()) {
+                alloc.insert("length".into(), Value::from(l.saturating_sub(1)));
+            }
+            "dup_id+length-1"
+        }
+        1 => {
+            if let Some(f) = alloc.get_mut("free").and_then(|f| f.as_array_mut()) {
+                f.push(orphan);
+            }
+            "dup_id+orphan_freed"
+        }
+        _ => "dup_id",
+    }
+}
+
 fn mutate_json(rng: &mut Rng, root: &mut Value, bound: u64) -> &'static str {
+    if rng.chance(1, 12) {
+        return mutate_json_duplicate_id(rng, root);
+    }
     let mut paths = Vec::new();
     json_paths(root, &mut Vec::new(), &mut paths);
     let mut pool = Vec::new();
